@@ -83,7 +83,8 @@ type rec struct {
 	totalH   atomic.Int64 // never reset: the exactly-once totals
 	totalI   atomic.Int64
 	sentinel atomic.Int64
-	inner    dns.Handler // when set, non-sentinel requests go there (the multiplexer under test)
+	inner    dns.Handler       // when set, non-sentinel requests go there (the multiplexer under test)
+	accept   dns.MsgAcceptFunc // when set, the server's accept policy (default policy otherwise)
 }
 
 func isSentinel(m *dns.Msg) bool {
@@ -171,7 +172,7 @@ func probePC(r *rec, pkt []byte) obs {
 	pc := memnet.NewPacketConn()
 	started := make(chan struct{})
 	srv := &dns.Server{PacketConn: pc, Handler: r, MsgInvalidFunc: r.invalidFn, ReadTimeout: time.Hour,
-		NotifyStartedFunc: func() { close(started) }}
+		NotifyStartedFunc: func() { close(started) }, MsgAcceptFunc: r.accept}
 	done := make(chan error, 1)
 	go func() { done <- srv.ActivateAndServe() }()
 	<-started
@@ -258,6 +259,55 @@ func (t *tcpRig) probe(pkt []byte) obs {
 	o.Replies = replies
 	return o
 }
+
+// probeSeg: the same over a connection of its own whose octets reach the server in the given segments (chunk sizes of
+// the 2-octet prefix + message stream; after the list everything that is left).  The client half-closes after the
+// frame, the server serves what it got and closes, and everything it wrote is read up to the end of the stream: no
+// reply is "the stream ended without one".
+func (t *tcpRig) probeSeg(pkt []byte, chunks []int) obs {
+	c, s := memnet.Pipe()
+	s.SetChunks(chunks)
+	t.l.DialWith(s)
+	writeFrame(c, pkt)
+	c.CloseWrite()
+	data, _ := io.ReadAll(c)
+	c.Close()
+	o := t.r.take()
+	for len(data) >= 2 {
+		n := int(binary.BigEndian.Uint16(data))
+		if 2+n > len(data) {
+			n = len(data) - 2
+		}
+		o.Replies = append(o.Replies, data[2:2+n])
+		data = data[2+n:]
+	}
+	if len(data) > 0 {
+		o.Replies = append(o.Replies, data)
+	}
+	return o
+}
+
+// the segmentations every stream message must survive: the prefix alone, the prefix with the first k octets, octet by
+// octet, a cut inside / at the end of / just behind the 12-octet header, a cut inside the prefix
+func segmentations(n int) map[string][]int {
+	ones := make([]int, n+2)
+	for i := range ones {
+		ones[i] = 1
+	}
+	return map[string][]int{
+		"prefix-alone":  {2},
+		"prefix+1":      {3},
+		"prefix+5":      {7},
+		"header-11":     {2 + 11},
+		"header-12":     {2 + 12},
+		"header-13":     {2 + 13},
+		"inside-prefix": {1},
+		"octets":        ones,
+		"halves":        {2 + n/2},
+	}
+}
+
+var segNames = []string{"prefix-alone", "prefix+1", "prefix+5", "header-11", "header-12", "header-13", "inside-prefix", "octets", "halves"}
 
 func (t *tcpRig) close() {
 	if t.c != nil {
@@ -362,6 +412,7 @@ type expRec struct {
 	AN     int `json:"an"`
 	NS     int `json:"ns"`
 	AR     int `json:"ar"`
+	QD     int `json:"qd"`
 }
 
 type outRec struct {
@@ -402,8 +453,10 @@ type vec struct {
 	Refused  bool   `json:"refused"`
 	Past     []int  `json:"past"`
 	Exp      expRec `json:"exp"`
+	ExtraQ   []hx.B `json:"extraq"` // names of further questions behind the first
 	// filled by the harness for the replay file
 	Transport string `json:"transport,omitempty"`
+	Seg       string `json:"seg,omitempty"` // tcp: how the octets were segmented
 }
 
 // compare a reply header with the spec's table (-1 = not constrained); returns the first field that differs
@@ -413,7 +466,7 @@ func shapeDiff(got hdr, e expRec) string {
 		g, w int
 	}
 	for _, x := range []f{{"id", got.ID, e.ID}, {"qr", got.QR, e.QR}, {"rcode", got.Rcode, e.Rcode}, {"opcode", got.Opcode, e.Opcode},
-		{"rd", got.RD, e.RD}, {"cd", got.CD, e.CD}, {"ancount", got.AN, e.AN}, {"nscount", got.NS, e.NS}, {"arcount", got.AR, e.AR}} {
+		{"rd", got.RD, e.RD}, {"cd", got.CD, e.CD}, {"qdcount", got.QD, e.QD}, {"ancount", got.AN, e.AN}, {"nscount", got.NS, e.NS}, {"arcount", got.AR, e.AR}} {
 		if x.w >= 0 && x.g != x.w {
 			return x.n
 		}
@@ -439,7 +492,13 @@ func judgePkt(v *vec, tr string, o obs, sum *hx.Summary) {
 	cs.Transport = tr
 	pre := "server-" + tr + "/"
 	pc := polClass(v)
-	mis := func(key, what string) { sum.Mis(pre+key, fmt.Sprintf("[%s, policy %s, body %d, %d octets] %s", tr, pc, v.Body, len(pkt), what), &cs) }
+	seg := ""
+	if v.Seg != "" {
+		seg = ", segments " + v.Seg
+	}
+	mis := func(key, what string) {
+		sum.Mis(pre+key, fmt.Sprintf("[%s%s, policy %s, body %d, %d octets] %s", tr, seg, pc, v.Body, len(pkt), what), &cs)
+	}
 
 	switch {
 	case o.Handled > 1:
@@ -544,6 +603,9 @@ func reqOf(v *vec) *dns.Msg {
 	m.CheckingDisabled = h.CD == 1
 	if v.HasQ {
 		m.Question = []dns.Question{{Name: v.QName.String(), Qtype: uint16(v.QType), Qclass: dns.ClassINET}}
+		for _, n := range v.ExtraQ {
+			m.Question = append(m.Question, dns.Question{Name: n.String(), Qtype: dns.TypeMX, Qclass: dns.ClassINET})
+		}
 	}
 	return m
 }
@@ -651,6 +713,15 @@ func routeServer(v *vec, sum *hx.Summary) {
 	if err != nil {
 		hx.Die("pack route request: %v", err)
 	}
+	if len(v.ExtraQ) > 0 {
+		// the default policy stops a query with several questions; a server whose policy admits them hands them to the multiplexer
+		r.accept = func(dh dns.Header) dns.MsgAcceptAction {
+			if dh.Bits&(1<<15) != 0 {
+				return dns.MsgIgnore
+			}
+			return dns.MsgAccept
+		}
+	}
 	o := probePC(r, pkt)
 	var hs []hdr
 	var qs [][]dns.Question
@@ -689,7 +760,7 @@ func replay(path string) {
 	if hx.Thorough() {
 		udpEvery = 23
 	}
-	npkt, nroute, nudp, nlost := 0, 0, 0, 0
+	npkt, nroute, nudp, nlost, nseg := 0, 0, 0, 0, 0
 	var udpJobs []*vec
 	hx.ReadNDJSON(path, func(i int, v *vec) {
 		switch v.Kind {
@@ -709,8 +780,25 @@ func replay(path string) {
 					sum.Evaluations++
 					judgePkt(v, tr, probePC(r, pkt), &sum)
 				case "tcp":
-					sum.Evaluations++
-					judgePkt(v, tr, tcp.probe(pkt), &sum)
+					if v.Seg == "" {
+						sum.Evaluations++
+						judgePkt(v, tr, tcp.probe(pkt), &sum)
+					}
+					// the outcome does not depend on how the stream is cut into segments
+					segs := segmentations(len(pkt))
+					for k, name := range segNames {
+						if v.Seg != "" && v.Seg != name {
+							continue
+						}
+						if v.Seg == "" && !(v.Policy == "accept" || len(pkt) < 12 || (i+k)%len(segNames) == 0) {
+							continue
+						}
+						sum.Evaluations++
+						nseg++
+						w := *v
+						w.Seg = name
+						judgePkt(&w, tr, tcp.probeSeg(pkt, segs[name]), &sum)
+					}
 				case "udp":
 					udpJobs = append(udpJobs, v)
 				}
@@ -722,7 +810,7 @@ func replay(path string) {
 			if v.Transport == "" || v.Transport == "direct" {
 				routeDirect(v, &sum)
 			}
-			if v.Transport == "server" || (v.Transport == "" && i%5 == 0) {
+			if v.Transport == "server" || (v.Transport == "" && (i%5 == 0 || (len(v.ExtraQ) > 0 && i%2 == 0))) {
 				sum.Evaluations++
 				routeServer(v, &sum)
 			}
@@ -765,7 +853,7 @@ func replay(path string) {
 	}
 	tcp.close()
 	sum.Nontrivial = len(seen)
-	sum.Note("admission_replay", map[string]int{"packets": npkt, "routes": nroute, "udp_probes": nudp, "udp_lost": nlost})
+	sum.Note("admission_replay", map[string]int{"packets": npkt, "routes": nroute, "udp_probes": nudp, "udp_lost": nlost, "tcp_segmented": nseg})
 	sum.Print()
 }
 
@@ -943,7 +1031,12 @@ func recordPkt(out string, n int) {
 		case "pc":
 			o = probePC(r, pkt)
 		case "tcp":
-			o = tcp.probe(pkt)
+			if rng.Intn(2) == 0 {
+				o = tcp.probe(pkt)
+			} else {
+				name := segNames[rng.Intn(len(segNames))]
+				o = tcp.probeSeg(pkt, segmentations(len(pkt))[name])
+			}
 		case "udp":
 			o = probeUDP(r, pkt)
 			if o.Lost {
